@@ -30,6 +30,26 @@ def load_mutants():
     return mod.MUTANTS
 
 
+def load_seeded():
+    """the independently written breaking changes under /verif/seeded: each must be reported under its own property"""
+    import json
+    out = []
+    d = os.path.join(VERIF, 'seeded')
+    if not os.path.isdir(d):
+        return out
+    for name in sorted(os.listdir(d)):
+        mp = os.path.join(d, name, 'meta.json')
+        pp = os.path.join(d, name, 'patch.diff')
+        if not (os.path.exists(mp) and os.path.exists(pp)):
+            continue
+        with open(mp) as f:
+            meta = json.load(f)
+        if not meta.get('confirmed'):
+            continue
+        out.append(dict(id='seeded-' + name, prop=meta['property'], rule=None, expect='violation', patch=pp, anyfile=True))
+    return out
+
+
 def _copy_repo(dst):
     from droopsa.model import REPO, DRIVERS
     shutil.copytree(os.path.join(REPO, 'droop'), os.path.join(dst, 'droop'),
@@ -47,6 +67,19 @@ def _run_one(m):
     res = dict(id=m['id'], prop=m['prop'], rule=m['rule'], expect=m['expect'])
     try:
         _copy_repo(tmp)
+        if m.get('patch'):
+            import subprocess
+            r = subprocess.run(['patch', '-p1', '-s', '-d', tmp, '-i', m['patch']], stdout=subprocess.PIPE, stderr=subprocess.STDOUT, text=True)
+            if r.returncode != 0:
+                res['outcome'] = 'not-applicable'
+                res['detail'] = 'patch does not apply to the current tree: ' + r.stdout[:200]
+                return res
+            code, ctx, violations, known, error = run_property(m['prop'], 'quick', only=None, repo_root=tmp, quiet=True, write=False)
+            res['outcome'] = 'detected' if violations else ('missed(exit %d%s)' % (code, ': ' + error[:200] if error else ''))
+            if violations:
+                res['rule'] = ','.join(sorted(set(o.rule for o in violations)))
+                res['detail'] = '%s:%s %s' % (violations[0].file, violations[0].line, violations[0].how[:160])
+            return res
         edits = m.get('edits') or [(m['file'], m['old'], m['new'])]
         for (file, old, new) in edits:
             p = os.path.join(tmp, file)
@@ -104,7 +137,7 @@ def run(mutants, jobs=16):
 
 
 def run_for_property(pid):
-    ms = [m for m in load_mutants() if m['prop'] == pid]
+    ms = [m for m in load_mutants() + load_seeded() if m['prop'] == pid]
     t0 = time.time()
     rs = run(ms)
     return dict(mutants=len(rs),
@@ -118,16 +151,16 @@ def run_for_property(pid):
 
 
 def main(args, strict=False):
-    ms = load_mutants()
+    ms = load_mutants() + load_seeded()
     if args:
-        ms = [m for m in ms if m['prop'] in args or m['rule'] in args or m['id'] in args]
+        ms = [m for m in ms if m['prop'] in args or m['rule'] in args or m['id'] in args or (args == ['seeded'] and m['id'].startswith('seeded-'))]
     rs = run(ms)
     bad = 0
     for r in rs:
         ok = r['outcome'].startswith(GOOD)
         if not ok:
             bad += 1
-        print('%-8s %-5s %-5s %-48s %s%s' % ('ok' if ok else 'MISS', r['prop'], r['rule'], r['id'], r['outcome'],
+        print('%-8s %-5s %-5s %-48s %s%s' % ('ok' if ok else 'MISS', r['prop'], r['rule'] or '-', r['id'], r['outcome'],
                                              ('  -- ' + r['detail']) if r.get('detail') and not ok else ''))
     print('%d mutants/twins, %d not as expected' % (len(rs), bad))
     return 1 if (bad and strict) else 0
